@@ -1,9 +1,9 @@
 package props
 
 import (
-	"strings"
 	"go/token"
 	"go/types"
+	"strings"
 
 	"golang.org/x/tools/go/ssa"
 
@@ -35,6 +35,7 @@ func runC04(c *Ctx) {
 	ruleDeadlineDisarmed(c, p, "C04.disarm")
 	ruleCodeWidth(c, p, "C04.codewidth")
 	ruleWhoCloses(c, p, "C04.who-closes")
+	ruleSendOnce(c, p, roles, "C04.send-once")
 	_ = cfg
 	c.R.Assumptions = append(c.R.Assumptions,
 		"errgroup cancels the shared context when a goroutine returns a non-nil error (x/sync contract)",
@@ -1018,4 +1019,91 @@ func timerOnlyUse(p *core.Program, fn *ssa.Function) bool {
 		}
 	}
 	return uses > 0
+}
+
+// ---------------------------------------------------------------------------
+// C04.send-once: a per-packet callback hands a value to the sender at most once
+
+// ruleSendOnce: the goroutines of Do exchange the column info of an INSERT through a channel of capacity 1
+// that the sender reads once. The send sits in a callback the receive loop runs for every Data block the
+// server cares to send; its select's other case is the errgroup context, which ends only on failure or
+// cancellation. A third well-formed header block therefore parks the receive loop for ever (the sender has
+// finished without error, nobody cancels), EndOfStream is never read and Do never returns - read timeout or
+// not. The send must be guarded so that it executes at most once per call.
+func ruleSendOnce(c *Ctx, p *core.Program, r *doRoles, rule string) {
+	c.R.Rule(rule, "a channel send in a callback that Do installs for the receive loop (run once per received block) executes at most once per call: it is reachable only through the false edge of a test of a flag captured from the function that creates the callback (Do or its set-up helper), and that flag is set on every path from the callback's entry to the send - the sender receives once, the channel holds one more, and the select's ctx.Done() case does not fire when nothing failed")
+	cfg := p.Cfg.Name
+	n := 0
+	// the callbacks are closures of Do itself or of a set-up helper Do calls
+	var cbs []*ssa.Function
+	cbs = append(cbs, r.Do.AnonFuncs...)
+	for _, call := range core.Calls(r.Do) {
+		if h := core.StaticFn(call); h != nil && h.Blocks != nil && pkgOf(h) != nil && pkgOf(h).Path() == core.PkgCh {
+			cbs = append(cbs, h.AnonFuncs...)
+		}
+	}
+	for _, fn := range cbs {
+		if fn == r.Sender || fn == r.Receiver || fn == r.Watch {
+			continue
+		}
+		var sends []ssa.Instruction
+		for _, b := range fn.Blocks {
+			for _, in := range b.Instrs {
+				switch x := in.(type) {
+				case *ssa.Send:
+					sends = append(sends, in)
+				case *ssa.Select:
+					for _, st := range x.States {
+						if st.Dir == types.SendOnly {
+							sends = append(sends, in)
+						}
+					}
+				}
+			}
+		}
+		for i, snd := range sends {
+			n++
+			key := core.FuncName(fn) + sprintf("/send#%d", i+1)
+			ok := false
+			for _, fv := range fn.FreeVars {
+				pt, isPtr := fv.Type().Underlying().(*types.Pointer)
+				if !isPtr {
+					continue
+				}
+				if bt, isB := pt.Elem().Underlying().(*types.Basic); !isB || bt.Kind() != types.Bool {
+					continue
+				}
+				isFlagLoad := func(v ssa.Value) bool {
+					u, ok := v.(*ssa.UnOp)
+					return ok && u.Op == token.MUL && u.X == ssa.Value(fv)
+				}
+				edges := core.CondEdges(fn, false, func(cond ssa.Value) (bool, bool) {
+					v, pol := core.StripNot(cond)
+					return pol, isFlagLoad(v)
+				})
+				if len(edges) == 0 || !core.OnlyViaEdges(fn, snd, edges) {
+					continue
+				}
+				// the flag is raised before the send on every path
+				w := core.ReachAvoiding(core.Entry(fn), func(in ssa.Instruction) bool { return in == snd }, func(in ssa.Instruction) bool {
+					st, ok := in.(*ssa.Store)
+					if !ok || st.Addr != ssa.Value(fv) {
+						return false
+					}
+					k, isC := st.Val.(*ssa.Const)
+					return isC && k.Value != nil && k.Value.String() == "true"
+				}, nil)
+				if len(w) == 0 {
+					ok = true
+				}
+			}
+			if ok {
+				c.R.Ok(rule, key, cfg, p.Pos(snd.Pos()), "send is behind a once-flag captured from Do")
+			} else {
+				c.R.Bad(rule, key, cfg, p.Pos(snd.Pos()), "the callback sends on every block it is run for: the sender receives once and the channel buffers one more, so a third well-formed header block parks the receive loop in this select for ever when nothing fails - later packets (EndOfStream) are never read and Do does not return")
+			}
+		}
+	}
+	c.R.Count("channel sends in receive-loop callbacks of Do", n)
+	c.R.Floor(rule, cfg, n, 1)
 }
